@@ -437,18 +437,24 @@ pub fn run_mode(opts: &Options, prop: &str) -> Report {
                     }
                 }
                 Step::Run(n) => {
-                    if let Some(p) = pending_switch.pop() {
-                        // in some histories the peer that reported the reorganisation first leaves
-                        // before the next one follows: whatever the client keeps per PEER about the
-                        // abandoned branch has to go when that peer's proved state is reorganised,
-                        // not only when the store is rolled back
-                        let one_switch = sc.steps.iter().filter(|s| matches!(s, Step::Switch(_))).count() == 1;
-                        if prop == "C04" && one_switch && [7u64, 10, 15].contains(&(*seed % 16)) && !first_left && node.i().peers.get_peer(&peer).is_some() {
-                            first_left = true;
-                            node.drop_unconnected = true;
-                            node.disconnect(peer);
-                            rep.count_class("first-peer-leaves-before-the-second-follows");
-                        }
+                    // in some histories the peer that reported the reorganisation first leaves
+                    // - after its proof has moved the stored tip - before the next one follows:
+                    // whatever the client keeps per PEER about the abandoned branch has to go when
+                    // that peer's proved state is reorganised, not only when the store is rolled back
+                    let one_switch = sc.steps.iter().filter(|s| matches!(s, Step::Switch(_))).count() == 1;
+                    let leaving = prop == "C04" && one_switch && n_peers >= 2 && serving != 0 && [7u64, 10, 15].contains(&(*seed % 16)) && !first_left;
+                    let tip_on_new = {
+                        let tip = node.i().storage.get_tip_header().calc_header_hash();
+                        branches[serving].chain.number_of_hash(&tip).is_some() && branches[0].chain.number_of_hash(&tip).is_none()
+                    };
+                    if leaving && tip_on_new && !pending_switch.is_empty() && node.i().peers.get_peer(&peer).is_some() {
+                        first_left = true;
+                        node.drop_unconnected = true;
+                        node.disconnect(peer);
+                        rep.count_class("first-peer-leaves-before-the-second-follows");
+                    }
+                    let hold = leaving && !first_left;
+                    if let Some(p) = if hold { None } else { pending_switch.pop() } {
                         peer_branch[p] = serving;
                         let chain = &branches[serving].chain;
                         if let Err(e) = catch(|| node.announce(PeerIndex::new(p), chain)) {
